@@ -52,7 +52,7 @@ type brHarness struct {
 	pendEst      map[[2]int]uint64
 	taxCfg       map[int][3]string
 	taxRate      map[int][2]int64  // token -> (num, den) of the configured rate
-	taxEx        map[int]int       // token -> exempt user (0 = none)
+	taxEx        map[int]int       // token -> bit set of exempt users (bit u for user u)
 	sibling      string            // C13: a second chain with the same deployment id and the same validator keys ("" = none)
 	lastTax      map[int][3]string // token -> (rate string as submitted, n, d) of the setting in force
 	lastLimit    map[int][2]string // token -> (period index, limit) of the setting in force
@@ -508,10 +508,20 @@ func runBridgeCase(t *testing.T, r *Rec, prop string, nops int) {
 			}
 			var ex []sdk.AccAddress
 			exs := "-"
+			exMask := 0
 			if r.Rng.Intn(3) == 0 {
-				u := 1 + r.Rng.Intn(3)
-				ex = append(ex, e.users[u-1])
-				exs = fmt.Sprint(u)
+				// one exempt account, or two or three in some order: an account listed second or later is as exempt as the first
+				us := r.Rng.Perm(3)[:1+r.Rng.Intn(3)]
+				var ids []string
+				for _, x := range us {
+					ex = append(ex, e.users[x])
+					ids = append(ids, fmt.Sprint(x+1))
+					exMask |= 1 << (x + 1)
+				}
+				exs = strings.Join(ids, ",")
+				if len(us) > 1 {
+					r.Stat("settax.several_exempt")
+				}
 			}
 			exStr := make([]string, len(ex))
 			for i, a := range ex {
@@ -532,13 +542,7 @@ func runBridgeCase(t *testing.T, r *Rec, prop string, nops int) {
 			}
 			b.lastTax[tk] = [3]string{rate, fmt.Sprint(n), fmt.Sprint(d)}
 			b.taxRate[tk] = [2]int64{n, d}
-			b.taxEx[tk] = 0
-			if exs != "-" {
-				fmt.Sscan(exs, new(int))
-				var eu int
-				fmt.Sscan(exs, &eu)
-				b.taxEx[tk] = eu
-			}
+			b.taxEx[tk] = exMask
 			b.emit(fmt.Sprintf("settax %d %d %d %s", tk, n, d, exs), b.state())
 			r.Stat("op.settax")
 		case x < 2*weightTax: // governance: limit
@@ -551,9 +555,16 @@ func runBridgeCase(t *testing.T, r *Rec, prop string, nops int) {
 			exs := "-"
 			var exStr []string
 			if r.Rng.Intn(3) == 0 {
-				u := 1 + r.Rng.Intn(3)
-				exStr = append(exStr, e.users[u-1].String())
-				exs = fmt.Sprint(u)
+				us := r.Rng.Perm(3)[:1+r.Rng.Intn(3)]
+				var ids []string
+				for _, x := range us {
+					exStr = append(exStr, e.users[x].String())
+					ids = append(ids, fmt.Sprint(x+1))
+				}
+				exs = strings.Join(ids, ",")
+				if len(us) > 1 {
+					r.Stat("setlimit.several_exempt")
+				}
 			}
 			// the same limit and period as the setting in force, with another exemption list (see settax)
 			if ll, ok := b.lastLimit[tk]; ok && r.Rng.Intn(3) == 0 {
@@ -620,7 +631,7 @@ func runBridgeCase(t *testing.T, r *Rec, prop string, nops int) {
 						}
 						// the tax itself: floor(amount * rate) for a non-exempt sender, 0 for an exempt one (computed here with big rationals)
 						wantTax := new(big.Int)
-						if rt, ok := b.taxRate[tk]; ok && rt[0] != 0 && b.taxEx[tk] != u {
+						if rt, ok := b.taxRate[tk]; ok && rt[0] != 0 && b.taxEx[tk]&(1<<u) == 0 {
 							wantTax.Mul(amt.BigInt(), big.NewInt(rt[0]))
 							wantTax.Quo(wantTax, big.NewInt(rt[1]))
 						}
